@@ -228,7 +228,9 @@ def render(kinds, rng, ws=True, brackets=False, same=False):
     parts = []
     for k in kinds:
         if k == "NAME":
-            nm = "a" if same else SPELL[rng.randrange(len(SPELL))]
+            nm = "a" if same is True else SPELL[rng.randrange(len(SPELL))]
+            if same == "kw" and names and parts and parts[-1] == "+":
+                nm = "items"            # after '+' only a NAME can follow: 'items' is an ordinary metadata name there
             names.append(nm)
             parts.append(nm)
         else:
@@ -328,6 +330,9 @@ def api_checks(ex, kinds, text, names, real_ok):
         alone = list(parsing.compile_str(text))
     except ValueError:
         return                      # reported by the caller ('an accepted string compiles')
+    for a_, n_ in zip(kinds, names[1:]):
+        if a_ == "PLUS" and n_ is not None:
+            metadata_semantics(ex, n_)
     _compile_expression([text, "zz9"])
     _compile_expression([text, text])
     again = list(parsing.compile_str(text))
@@ -356,6 +361,28 @@ def api_checks(ex, kinds, text, names, real_ok):
         except NotifierNotFound:
             twice = False
         ex.check(not twice, "... exactly once")
+
+
+_META = {}
+
+
+def metadata_semantics(ex, n):
+    """'+n' observes exactly the traits whose metadata n is defined and not None - falsy values included"""
+    from traits.api import HasTraits, Any
+    if n not in _META:
+        _META[n] = type("FxMeta_" + n, (HasTraits,), {
+            "m_true": Any(**{n: True}), "m_zero": Any(**{n: 0}), "m_empty": Any(**{n: ""}), "m_false": Any(**{n: False}),
+            "m_str": Any(**{n: "x"}), "m_none": Any(**{n: None}), "m_absent": Any(), "m_other": Any(**{n + "x": True})})
+    o = _META[n]()
+    seen = []
+    o.observe(lambda e: seen.append(e.name), "+" + n)
+    for t in ("m_absent", "m_zero", "m_none", "m_true", "m_empty", "m_other", "m_false", "m_str"):
+        setattr(o, t, 5)
+    ex.check(seen == ["m_zero", "m_true", "m_empty", "m_false", "m_str"],
+             "'+name' observes exactly the traits on which that metadata is defined and not None (falsy values included)")
+    o.add_trait("late", Any(**{n: 0}))
+    o.late = 1
+    ex.check(seen[-1:] == ["late"], "... including a matching trait added later")
 
 
 _SEEN = []       # (denotation, expression, graphs, text) of strings met earlier in this worker process
@@ -456,12 +483,49 @@ def token_harness(L, first):
         kinds = [TERMINALS[ex.values.get("t%d" % i, 0)] for i in range(ex.values.get("len", 0))]
         rng = random.Random(hash((tuple(kinds), ex.values.get("__seed__", 0))) & 0xFFFFFFFF)
         real_ok = None
-        for same in (False, True):
+        spellings = (False, True) + (("kw",) if any(a == "PLUS" and b == "NAME" for a, b in zip(kinds, kinds[1:])) else ())
+        for same in spellings:
             text, names = render(kinds, rng, same=same)
             r = concrete_text(ex, kinds, text, names)
             real_ok = r if real_ok is None else real_ok
         return {"accepted": real_ok}
 
+    return harness
+
+
+DER_NAMES = ["b", "c", "d"]
+
+
+def derivation_harness(pos, length):
+    """longer derivations than the token bound reaches, drawn from the documented grammar by symbolic choices: a series of
+    `length` elements whose element `pos` is a group of two alternatives, each a name optionally continued by a connector and
+    another name (choice feasibility only; the rendered string goes through the real parse/compile and the reference denotation)"""
+    def harness(ex):
+        def alt(tag):
+            out = [("NAME", DER_NAMES[ex.choice(tag + "_n0", 2)])]
+            if ex.flag(tag + "_continued"):
+                out.append(("COLON" if ex.flag(tag + "_colon") else "DOT", None))
+                out.append((("NAME", DER_NAMES[1 + ex.choice(tag + "_n1", 2)]) if not ex.flag(tag + "_items") else ("ITEMS", None)))
+            return out
+        a1, a2 = alt("alt1"), alt("alt2")
+        if a1 == a2:
+            return {"skipped": "identical alternatives (the duplicate-branch finding is reported by the token obligations)"}
+        toks = []
+        for i in range(length):
+            if i:
+                toks.append(("COLON" if ex.flag("conn%d_colon" % i) else "DOT", None))
+            if i == pos:
+                toks += [("LSQB", None)] + a1 + [("COMMA", None)] + a2 + [("RSQB", None)]
+            else:
+                toks.append(("NAME", "ae"[i % 2]))
+        kinds = [k for k, _n in toks]
+        names = [n for _k, n in toks]
+        text = "".join(n if k == "NAME" else TEXT[k] for k, n in toks)
+        if ex.flag("spaced"):
+            text = " ".join(n if k == "NAME" else TEXT[k] for k, n in toks)
+        ok = concrete_text(ex, kinds, text, names)
+        ex.check(ok, "a string generated by the documented grammar is accepted")
+        return {"text": text}
     return harness
 
 
@@ -493,4 +557,11 @@ def obligations(tier, build):
                                "witness spellings": SPELL, "whitespace": "random, seeded"},
                        leverage="the remaining tokens and the length on every rejected prefix (universal), token identity on accepted ones",
                        max_paths=200000, path_wall_s=60, query_timeout_ms=60000, witness_violations=True)
-            for f in TERMINALS + [END]]
+            for f in TERMINALS + [END]] + [
+        Obligation("derivation/len=%d/group-at=%d" % (n, p), derivation_harness(p, n), stubs=STUBS,
+                   bounds={"shape": "series of %d elements, element %d a group of two alternatives of <= 3 tokens each (9 to 15 tokens)" % (n, p),
+                           "names": DER_NAMES + ["a", "e"]},
+                   leverage="choice feasibility only: each derivation is one path; the deciding comparison is the reference denotation "
+                            "against the graphs the real compile_str builds",
+                   max_paths=20000, path_wall_s=60, query_timeout_ms=60000)
+        for n in ((1, 2, 3) if tier != "quick" else (1, 2)) for p in range(n)]
